@@ -175,6 +175,7 @@ inductive Touch (s s' : Sys) (m : Msg) (ms : List Msg) : Prop where
       (h : s'.hub = s.hub) (b : s'.bsei = s.bsei) (t : s'.stsei = s.stsei) (r : s'.reward = s.reward) (g : s'.reg = s.reg)
   | reg (s1 : Sys) (sender : Addr) (funds : List (Denom × Nat)) (rm : RegMsg)
       (heq : m = .wasm sender regA (.reg rm) funds) (h1 : s1.reg = s.reg)
+      (hmv : s.moveFunds sender regA funds = .ok s1) (hch : s'.chain = s1.chain)
       (hx : s1.regExec sender rm = .ok (s'.reg, ms))
       (h : s'.hub = s.hub) (b : s'.bsei = s.bsei) (t : s'.stsei = s.stsei) (r : s'.reward = s.reward) (d : s'.disp = s.disp)
 
@@ -293,7 +294,7 @@ theorem handle_touch (s s' : Sys) (m : Msg) (ms : List Msg) (hx : s.handle m = .
                     · cases hx
                     · rename_i r hr
                       cases hx
-                      exact .reg s1 sender funds rm (by rw [t6]) sc.reg hr sc.hub sc.bsei sc.stsei sc.reward sc.disp
+                      exact .reg s1 sender funds rm (by rw [t6]) sc.reg (by rw [← t6]; exact h1) rfl hr sc.hub sc.bsei sc.stsei sc.reward sc.disp
                   · cases hx
                 · simp only [t6, if_false] at hx
                   by_cases t7 : target = swapA
@@ -351,7 +352,7 @@ theorem handle_sentBy (s s' : Sys) (m : Msg) (ms : List Msg) (hx : s.handle m = 
     | disp env sender funds dm heq hx' h b' t r g =>
       rw [hm] at heq; injection heq with _ e2 _ _; subst e2
       exact dispExec_sentBy _ _ _ _ _ _ _ hx'
-    | reg s1 sender funds rm heq h1 hx' h b' t r d' =>
+    | reg s1 sender funds rm heq h1 _ _ hx' h b' t r d' =>
       rw [hm] at heq; injection heq with _ e2 _ _; subst e2
       exact regExec_sentBy _ _ _ _ _ hx'
   · cases m with
@@ -391,7 +392,7 @@ theorem exec_rejected_hub (s : Sys) (sender : Addr) (funds : List (Denom × Nat)
     | stsei blk sender' funds' tm heq _ _ _ _ _ _ => injection heq with _ e2 _ _; cases e2
     | reward s1 sender' funds' rm heq _ _ _ _ _ _ _ _ _ => injection heq with _ e2 _ _; cases e2
     | disp env sender' funds' dm heq _ _ _ _ _ _ => injection heq with _ e2 _ _; cases e2
-    | reg s1 sender' funds' rm heq _ _ _ _ _ _ _ => injection heq with _ e2 _ _; cases e2
+    | reg s1 sender' funds' rm heq _ _ _ _ _ _ _ _ _ => injection heq with _ e2 _ _; cases e2
 
 theorem exec_rejected_disp (s : Sys) (sender : Addr) (funds : List (Denom × Nat)) (dm : DispMsg)
     (h : ∀ env, ∃ err, dispExec s.disp dispA env sender dm = .error err) :
@@ -417,7 +418,7 @@ theorem exec_rejected_disp (s : Sys) (sender : Addr) (funds : List (Denom × Nat
     | bsei s1 sender' funds' tm heq _ _ _ _ _ _ _ => injection heq with _ e2 _ _; cases e2
     | stsei blk sender' funds' tm heq _ _ _ _ _ _ => injection heq with _ e2 _ _; cases e2
     | reward s1 sender' funds' rm heq _ _ _ _ _ _ _ _ _ => injection heq with _ e2 _ _; cases e2
-    | reg s1 sender' funds' rm heq _ _ _ _ _ _ _ => injection heq with _ e2 _ _; cases e2
+    | reg s1 sender' funds' rm heq _ _ _ _ _ _ _ _ _ => injection heq with _ e2 _ _; cases e2
 
 theorem exec_rejected_reward (s : Sys) (sender : Addr) (funds : List (Denom × Nat)) (rm : RewMsg)
     (h : ∀ tk dp bb, ∃ err, rewardExec s.reward rewardA tk dp bb sender rm = .error err) :
@@ -443,6 +444,6 @@ theorem exec_rejected_reward (s : Sys) (sender : Addr) (funds : List (Denom × N
     | bsei s1 sender' funds' tm heq _ _ _ _ _ _ _ => injection heq with _ e2 _ _; cases e2
     | stsei blk sender' funds' tm heq _ _ _ _ _ _ => injection heq with _ e2 _ _; cases e2
     | disp env sender' funds' dm heq _ _ _ _ _ _ => injection heq with _ e2 _ _; cases e2
-    | reg s1 sender' funds' rm' heq _ _ _ _ _ _ _ => injection heq with _ e2 _ _; cases e2
+    | reg s1 sender' funds' rm' heq _ _ _ _ _ _ _ _ _ => injection heq with _ e2 _ _; cases e2
 
 end Krp
